@@ -557,6 +557,8 @@ def workload(tier, seed):
         for pos in FAR_APART if not quick else FAR_APART[:5]:
             for rep in range(1 if quick else 4):
                 yield "far_apart", {"cls": cls, "pos": pos, "nmasks": 5 if quick else 12, "rseed": seed * 10 + rep}
+        for i in range(2 if quick else 12):
+            yield "frozen_nx", {"cls": cls, "rseed": seed * 100 + i, "count": 60}
         for i in range(2 if quick else 16):
             yield "history", {"cls": cls, "rseed": seed * 100 + i}
             yield "sampled", {"cls": cls, "rseed": seed * 100 + i}
@@ -603,13 +605,50 @@ def case_sampled2(ctx, cls, rseed):
     g = gens()
     r = ctx.rng("c01sampled2", cls, rseed)
     # ---- graph pigeonhole on a bipartite graph with a planted left-saturating matching
-    for (L, R) in ((8, 10), (12, 12), (15, 11), (33, 32), (64, 64), (100, 128)):
+    shapes = [(8, 10, None), (12, 12, None), (15, 11, None), (33, 32, None), (64, 64, None), (100, 128, None),
+              # almost regular on the left: every pigeon has d holes, except one with d+1 and one with d-1 that are neither
+              # the first, the middle nor the last pigeon (so the number of edges is d*L all the same)
+              (120, 120, 2), (101, 130, 3), (260, 256, 2)]
+    for (L, R, d_) in shapes:
         E = set()
-        if L <= R:
-            holes = r.sample(range(1, R + 1), L)
-            E |= {(i + 1, holes[i]) for i in range(L)}
-        for _ in range(3 * L):
-            E.add((r.randint(1, L), r.randint(1, R)))
+        if d_ is None:
+            if L <= R:
+                holes = r.sample(range(1, R + 1), L)
+                E |= {(i + 1, holes[i]) for i in range(L)}
+            for _ in range(3 * L):
+                E.add((r.randint(1, L), r.randint(1, R)))
+        else:
+            for u in range(1, L + 1):
+                for j in range(d_):
+                    E.add((u, (u - 1 + j * 7) % R + 1))
+            inner = [u for u in range(2, L) if u != (L + 1) // 2 and u != L // 2 and u != L // 2 + 1]
+            a, b = r.sample(inner, 2)
+            E.add((a, next(v for v in range(1, R + 1) if (a, v) not in E)))
+            E.discard(next(e for e in sorted(E) if e[0] == b))
+            ctx.count("almost_regular_bipartite_graphs")
+            # a placement of all pigeons into distinct holes (augmenting paths), so that true references exist
+            nb_ = {u: [v for (a_, v) in sorted(E) if a_ == u] for u in range(1, L + 1)}
+            owner = {}
+
+            def place(u, seen):
+                for v in nb_[u]:
+                    if v in seen:
+                        continue
+                    seen.add(v)
+                    if v not in owner or place(owner[v], seen):
+                        owner[v] = u
+                        return True
+                return False
+            import sys as _sys
+            _old = _sys.getrecursionlimit()
+            _sys.setrecursionlimit(max(_old, 4 * L + 200))
+            try:
+                for u in range(1, L + 1):
+                    place(u, set())
+            finally:
+                _sys.setrecursionlimit(_old)
+            where = {u: v for v, u in owner.items()}
+            holes = [where.get(u, nb_[u][0]) for u in range(1, L + 1)]
         E = sorted(E)
         B = BipartiteGraph(L, R)
         for e in E:
@@ -644,7 +683,18 @@ def case_sampled2(ctx, cls, rseed):
                         return False
                     return True
                 base = {p[(i + 1, holes[i])] for i in range(L)} if L <= R else set()
-                sampled_compare(ctx, "gphp", desc, F, perturb(r, base, p.values(), 30), pred,
+                pool_ = perturb(r, base, p.values(), 30)
+                if L <= 300:
+                    # every pigeon in turn moved to each of its other holes, and taken out of all of them
+                    for u in range(1, L + 1):
+                        mine = [e for e in E if e[0] == u]
+                        cur = [e for e in mine if p[e] in base]
+                        for e in mine:
+                            if e not in cur:
+                                pool_.append((set(base) - {p[c] for c in cur}) | {p[e]})
+                                pool_.append(set(base) | {p[e]})
+                        pool_.append(set(base) - {p[c] for c in cur})
+                sampled_compare(ctx, "gphp", desc, F, pool_, pred,
                                 ("gphp-large", L, R, tuple(E), functional, onto, cls))
     # ---- binary pigeonhole with 4-5 bits
     for (m, n) in ((9, 12), (7, 20), (14, 13)):
@@ -756,6 +806,55 @@ def case_sampled2(ctx, cls, rseed):
 
 
 FAR_APART = [(1, 2, 65537), (1, 65537, 65538), (2, 65538, 131074), (1, 257, 513), (5, 65541, 131077), (3, 4099, 1048579)]
+
+
+def case_frozen_nx(ctx, cls, rseed, count):
+    """A stream of different networkx bipartite graphs, each frozen (networkx.freeze), used once and dropped, so that
+    the interpreter hands the address of a dead graph to a later one: every formula must be the one of the graph it
+    was asked for."""
+    import gc
+    import networkx
+    tt.selfcheck()
+    K = S.formula_classes()[cls]
+    g = gens()
+    r = ctx.rng("c01frozen", cls, rseed)
+    seen_ids = set()
+    for i in range(count):
+        L, R = r.randint(1, 3), r.randint(1, 3)
+        mask = r.getrandbits(L * R)
+        G, E = S.bipartite_graph(L, R, mask, True)
+        G = networkx.freeze(G)
+        if id(G) in seen_ids:
+            ctx.count("frozen_graphs_at_the_address_of_a_dead_one")
+        seen_ids.add(id(G))
+        functional, onto = r.random() < 0.5, r.random() < 0.3
+        desc = "GraphPigeonholePrinciple(frozen networkx B(%d,%d,%r),functional=%s,onto=%s)[%s] (graph number %d of the process)" % (
+            L, R, E, functional, onto, cls, i + 1)
+        F, exc = S.build(ctx, "gphp", desc, g.GraphPigeonholePrinciple, G, functional=functional, onto=onto, formula_class=K)
+        ctx.count("frozen_graph_arguments")
+        if F is None:
+            raised(ctx, "gphp", desc, exc)
+        elif F.number_of_variables() != len(E):
+            ctx.violation("gphp:numvar", "%s has %d variables, the graph has %d edges" % (desc, F.number_of_variables(), len(E)))
+        else:
+            at = S.decode(ctx, "gphp", desc, F)
+            p = at.get("p_{#,#}", {}) if at is not None else None
+            if p is not None and set(p) != set(E):
+                ctx.violation("gphp:atoms", "%s: variables %r do not name the edges" % (desc, sorted(p)))
+            elif p is not None:
+                holes_of = {h: [u for (u, v) in E if v == h] for h in range(1, R + 1)}
+                objs = placements(L, holes_of, range(1, R + 1), functional, onto)
+                S.check_models(ctx, "gphp", desc, F, ([p[a] for a in o] for o in objs), ("gphp-frozen", L, R, mask, functional, onto, cls, i), nontrivial=len(E) > 0)
+        desc = "SubsetCardinalityFormula(frozen networkx B(%d,%d,%r))[%s] (graph number %d of the process)" % (L, R, E, cls, i + 1)
+        F, exc = S.build(ctx, "subsetcard", desc, g.SubsetCardinalityFormula, G, formula_class=K)
+        if F is not None:
+            at = S.decode(ctx, "subsetcard", desc, F)
+            x = at.get("x_{#,#}", {}) if at is not None else None
+            if F.number_of_variables() != len(E) or (x is not None and set(x) != set(E)):
+                ctx.violation("subsetcard:atoms", "%s: %d variables %r, the graph has the edges %r" % (desc, F.number_of_variables(), sorted(x or {}), E))
+        del G, F
+        if i % 3 == 0:
+            gc.collect()
 
 
 def case_far_apart(ctx, cls, pos, nmasks, rseed):
